@@ -151,7 +151,7 @@ Apply(c) ==
           [] m = "sqrt" -> SqrtV(x)
           [] m = "floor" -> FloorV(x.f) [] m = "ceil" -> CeilV(x.f) [] m = "round" -> RoundV(x.f)
           [] m = "ipart" -> IPartV(x.f) [] m = "fpart" -> FPartV(x.f)
-          [] m = "to_str" -> IF x.kind = "float" THEN ROom
+          [] m = "to_str" -> IF x.kind = "float" THEN (IF x.f.cls = "fin" THEN ROk(VS(FloatText(x.f))) ELSE ROom)      \* MSNum!FloatText: the shortest round-trip decimal
                              ELSE ROk(VS(IF x.kind = "byte" THEN ByteText(x.z) ELSE DecOfInt(x.z)))
           [] m = "to_ascii" -> LET n == SmallInt(c.recv) IN IF n \in AsciiKnown THEN ROk(VS(Ascii(n))) ELSE ROom
 
